@@ -42,7 +42,7 @@ def function_events(ctx):
     return ev
 
 
-def build_key(alg, expired, revoked, nuids=1):
+def build_key(alg, expired, revoked, nuids=1, direct=False):
     pgpy = import_pgpy()
     kw = {}
     if expired:
@@ -51,6 +51,9 @@ def build_key(alg, expired, revoked, nuids=1):
     for j in range(1, nuids):
         uid = pgpy.PGPUID.new('Alt %d' % j, email='alt%d@x.org' % j)
         k.add_uid(uid, created=K.ts(K.T0 + 100 + j), **kw)
+    if direct:
+        # a direct-key self-signature (type 0x1F): the one kind of signature whose subject is the verifying key itself
+        k |= k.certify(k, created=K.ts(K.T0 + 60))
     if revoked:
         rs = k.revoke(k, created=K.ts(K.T0 + 1000))
         k |= rs
@@ -66,9 +69,10 @@ def e2e_events(ctx, scenarios):
     for sc, predicted in scenarios:
         alg, expired, revoked, subj, sigs = sc['alg'], sc['expired'], sc['revoked'], sc['subj'], sc['sigs']
         nuids = len(sigs) if subj == 'selfcert' else 1
-        kk = (alg, expired, revoked, nuids)
+        direct = (subj == 'selfcert' and len(sigs) != 2) or subj == 'directsig'         # self-verification also over a direct-key self-signature
+        kk = (alg, expired, revoked, nuids, direct)
         if kk not in keys:
-            keys[kk] = build_key(alg, expired, revoked, nuids)
+            keys[kk] = build_key(alg, expired, revoked, nuids, direct)
         priv = keys[kk]
         pub = pgpy.PGPKey.from_blob(bytes(priv.pubkey))[0]      # as a verifier would hold it
         rec = {'k': 'e2e', 'expired': expired, 'scenario': sc, 'predicted': predicted}
@@ -81,6 +85,12 @@ def e2e_events(ctx, scenarios):
             elif subj == 'thirdparty':
                 s = priv.certify(other.userids[0], created=K.ts(K.T0 + 50))
                 res = pub.verify(other.userids[0] if sigs[0] else other.userids[1], s)
+                expected = [s]
+                wrong = [not sigs[0]]
+            elif subj == 'directsig':
+                from pgpy.constants import SignatureType
+                s = next(x for x in pub.__sig__ if x.type == SignatureType.DirectlyOnKey)
+                res = pub.verify(pub if sigs[0] else other.pubkey, s)
                 expected = [s]
                 wrong = [not sigs[0]]
             elif subj == 'message':
